@@ -69,22 +69,27 @@ namespace verif {
 template <typename E, typename T>
 void applyH(const json &in, json &out) {
   const json &ja = in.at("a");
-  const Grid<T> g = mkGrid<T>(ja.at("g"));
+  const auto gp = opGrid<T>(ja.at("g"));
+  const Grid<T> &g = *gp;
   const Factors<T> fs(in, g);
   out["fs"] = fs.proj();
   withOrder(ja.at("o").get<size_t>(), [&](auto O) {
     constexpr size_t o = decltype(O)::value;
     if constexpr (o <= 3) {
-      const Spline<T, o> a = mkSpline<T, o>(ja, g);
+      const auto ap = opSpline<T, o>(ja, g);
+      const Spline<T, o> &a = *ap;
       out["a"] = projSpline(a);
+      // in threaded mode the operator and the form are shared const objects too
+      const std::string ekey = std::string(Codec<T>::name) + in.at("ast").dump() + in.at("fs").dump();
       guarded(out, "app", [&] {
-        const auto e = E::template make<T>(fs);
-        out["app_v"] = projSpline(e * a);
+        using ExprT = decltype(E::template make<T>(fs));
+        const auto ep = cached<ExprT>("E" + ekey, [&] { return new ExprT(E::template make<T>(fs)); });
+        out["app_v"] = projSpline((*ep) * a);
       });
       guarded(out, "lf", [&] {
-        auto e = E::template make<T>(fs);
-        const bspline::integration::LinearForm lf{std::move(e)};
-        out["lf_v"] = Codec<T>::enc(lf(a));
+        using FormT = decltype(bspline::integration::LinearForm{E::template make<T>(fs)});
+        const auto lp = cached<FormT>("L" + ekey, [&] { return new FormT(E::template make<T>(fs)); });
+        out["lf_v"] = Codec<T>::enc((*lp)(a));
       });
       out["a_after"] = projSpline(a);
     }
@@ -94,22 +99,28 @@ void applyH(const json &in, json &out) {
 template <typename E1, typename E2, typename T>
 void bfH(const json &in, json &out) {
   const json &ja = in.at("a"), &jb = in.at("b");
-  const Grid<T> g = mkGrid<T>(ja.at("g"));
+  const auto gp = opGrid<T>(ja.at("g"));
+  const Grid<T> &g = *gp;
   const bool bshare = in.value("bshare", 1) != 0;
-  const Grid<T> gb = bshare ? g : mkGrid<T>(jb.at("g"));
+  const auto gbp = bshare ? gp : opGrid<T>(jb.at("g"));
+  const Grid<T> &gb = *gbp;
   const Factors<T> fs(in, g);
   out["fs"] = fs.proj();
   withOrder(ja.at("o").get<size_t>(), [&](auto OA) {
     withOrder(jb.at("o").get<size_t>(), [&](auto OB) {
       constexpr size_t oa = decltype(OA)::value, ob = decltype(OB)::value;
       if constexpr (oa <= 3 && ob <= 3) {
-        const Spline<T, oa> a = mkSpline<T, oa>(ja, g);
-        const Spline<T, ob> b = mkSpline<T, ob>(jb, gb);
+        const auto ap = opSpline<T, oa>(ja, g);
+        const auto bp = opSpline<T, ob>(jb, gb);
+        const Spline<T, oa> &a = *ap;
+        const Spline<T, ob> &b = *bp;
         out["a"] = projSpline(a);
         out["b"] = projSpline(b);
         guarded(out, "bf", [&] {
-          const bspline::integration::BilinearForm f{E1::template make<T>(fs), E2::template make<T>(fs)};
-          out["bf_v"] = Codec<T>::enc(f(a, b));
+          using FormT = decltype(bspline::integration::BilinearForm{E1::template make<T>(fs), E2::template make<T>(fs)});
+          const auto fp = cached<FormT>(std::string("B") + Codec<T>::name + in.at("e1").dump() + in.at("e2").dump() + in.at("fs").dump(),
+                                        [&] { return new FormT(E1::template make<T>(fs), E2::template make<T>(fs)); });
+          out["bf_v"] = Codec<T>::enc((*fp)(a, b));
         });
         guarded(out, "sw", [&] {
           const bspline::integration::BilinearForm f{E2::template make<T>(fs), E1::template make<T>(fs)};
